@@ -1176,6 +1176,9 @@ def role(spec, name):
     if spec.group in ("joint", "joint1"):
         i, n = name.split(".", 1)
         sub = spec.subs[int(i)]
+        if sub.group == "transform" and n in ("aloc", "ascale"):
+            # a parameter OF the affine transform: the finding is about that transform, whatever else is in the chain
+            return f"TransformedParameter[Affine].{n}"
         return f"{class_of(sub)}.{role(sub, n)}"
     cls = class_of(spec)
     if cls == "Distribution":
